@@ -6,27 +6,30 @@ from .. import malsrc
 from .c04 import gen_spec
 
 ASSUMPTIONS = [
-    'the classifier of "does not conform to the grammar" is the unmodified generated ANTLR lexer + parser with counting error listeners (as the property states); the start rule has no EOF, so trailing text after the last declaration is not an error of the grammar',
-    'the Lean recursive-descent parser accepts exactly the token sequences of mal.g4 (checked here against ANTLR on every mutant)',
+    'a file "conforms to the MAL grammar" iff the unmodified generated ANTLR lexer + parser with counting error listeners report no error for the start rule AND the start rule consumed the whole token stream (next token EOF): mal.g4 writes the start rule without EOF, so the generated parser alone stops silently at the first token that cannot start a declaration; accepting such a file was a defect of the compiler (repaired in e0054c2), not the meaning of "conforms"',
+    'the Lean classifier parseSource (lexes completely, parser.mal() leaves no token) rejects exactly the texts MalCompiler.compile raises on (checked here in both directions on every mutant and on the unmutated controls)',
 ]
 TRUSTED = ['Lean 4.33 kernel', 'axioms: propext, Classical.choice, Quot.sound',
            'hand-written model Model/Compiler/{Token,Parser}.lean (tied by this correspondence)',
-           'harness/malsrc.py (mutation operators, ANTLR counting listeners)']
+           'harness/malsrc.py (mutation operators, trailing-input family, ANTLR counting listeners + EOF test)']
 
 def verdicts(files, root, tag):
-    """(grammar says erroneous, real compiler raised?, result)"""
+    """(grammar says erroneous [None: an include is missing], real compiler raised?, result, why)
+    why: 'errors' (counting listeners reported >= 1 error) / 'trailing' (no error reported, but the start rule stopped
+    in front of the end of the file) / None"""
     from maltoolbox.language.compiler import MalCompiler
     d = os.path.join(scratch(), 'c17-' + tag)
     malsrc.write_files(d, files)
     # the grammar's verdict over the root and every file it includes
-    bad, seen, todo = False, set(), [root]
+    bad, why, seen, todo = False, None, set(), [root]
     while todo:
         f = todo.pop()
         if f in seen: continue
         seen.add(f)
         if not os.path.exists(os.path.join(d, f)): bad = None; break      # missing include: not a grammar question
-        n, incs = malsrc.antlr_errors(os.path.join(d, f))
-        if n: bad = True; break
+        n, incs, trailing = malsrc.antlr_errors(os.path.join(d, f))
+        if n: bad, why = True, 'errors'; break
+        if trailing: bad, why = True, 'trailing'; break
         todo += incs
     comp = MalCompiler()
     try:
@@ -42,56 +45,110 @@ def verdicts(files, root, tag):
             out, raised = out2, None
         except Exception:
             pass
-    return bad, raised, out
+    return bad, raised, out, why
 
-def run(seed, tier, lean) -> Result:
+def gen_cases(seed, tier):
+    """[(files, root, victim, family)]: family 'mutant' (token-level mutation of one file), 'control' (unmutated), or
+    'trailing:<kind>[:included]' (valid text + input the start rule does not consume, in the root or an included file)"""
     rnd = random.Random(seed)
-    res = Result(rule='valid programs (random specifications printed as MAL, single file or with includes) mutated at token level: deletion, insertion, '
-                      'duplication, truncation, swapped brackets, reserved words as names, stray characters / unterminated strings, in the root or in an '
-                      'included file; three-way agreement: Lean parser errors <=> ANTLR with counting listeners reports >= 1 error => the real compiler '
-                      'raises; non-trivial = the mutant lexes cleanly but is rejected by the grammar')
     n = 400 if tier == 'quick' else 2400
     cases = []
+    spec = blks = None
     for i in range(n):
         r = random.Random(rnd.getrandbits(48))
-        if i % 40 == 0 or not cases:
+        if i % 40 == 0 or blks is None:
             spec = gen_spec(r); blks = malsrc.blocks(spec)
         if i % 3 == 0:
             files, root = malsrc.split_files(blks, r, True)
             victim = r.choice(sorted(files))
         else:
             files, root = {'m.mal': '\n'.join(blks) + '\n'}, 'm.mal'; victim = 'm.mal'
-        files = dict(files); files[victim] = malsrc.mutate(files[victim], r)
-        cases.append((files, root, victim))
-    model = run_driver([{'op': 'compile', 'case': i, 'files': [[k, v] for k, v in f.items()], 'root': root} for i, (f, root, _) in enumerate(cases)]) if lean['build_ok'] else None
-    for i, (files, root, victim) in enumerate(cases):
+        files = dict(files)
+        if i % 4 == 3:
+            # the defect class of e0054c2; every fourth of them preceded by its unmutated control
+            if i % 16 == 3: cases.append((dict(files), root, victim, 'control'))
+            kind, files[victim] = malsrc.trailing_input(files[victim], r, ['surplus', 'misspelt', 'tokens', 'lexerror'][(i // 4) % 4])
+            cases.append((files, root, victim, 'trailing:' + kind + (':included' if victim != root else '')))
+        else:
+            files[victim] = malsrc.mutate(files[victim], r)
+            cases.append((files, root, victim, 'mutant'))
+    return cases
+
+def judge(files, root, victim, family, mo, tag):
+    """the violations of one case (mo: the model's answer or None) and what was observed"""
+    vs = []
+    bad, raised, out, why = verdicts(files, root, tag)
+    obs = {'bad': bad, 'why': why, 'raised': raised}
+    if bad is None: return vs, obs, out
+    rep = {'files': files, 'root': root, 'family': family}
+    if family.startswith('trailing') and raised is None:
+        vs.append(Violation(what=f'a valid specification followed by input the start rule does not consume ({family}, in {victim}) compiles to a specification '
+                                 f'instead of raising: the trailing input is dropped silently', fingerprint='C17:trailing-input-accepted',
+                            replay=dict(rep, result=json.dumps(out)[:1500])))
+    elif bad and raised is None:
+        vs.append(Violation(what=f'source that the grammar rejects ({why}; {family} of {victim}) compiles to a specification instead of raising',
+                            fingerprint='C17:half-compiled', replay=dict(rep, result=json.dumps(out)[:1500])))
+    elif family.startswith('trailing') and not bad:
+        vs.append(Violation(what=f'harness: a {family} case is accepted by ANTLR (no error, next token EOF)', fingerprint='C17:harness-trailing-family',
+                            replay=rep, no_failing_input=True))
+    elif not bad and raised is not None:
+        vs.append(Violation(what=f'a text that conforms to the grammar (no ANTLR error, whole token stream consumed) is rejected by the compiler: {raised}',
+                            fingerprint='C17:grammatical-rejected', replay=rep, no_failing_input=True))
+    if family == 'control' and (bad or raised is not None):
+        vs.append(Violation(what=f'an unmutated generated specification is rejected (grammar: {bad}, compiler: {raised})', fingerprint='C17:control-rejected',
+                            replay=rep, no_failing_input=True))
+    if mo is not None:
+        merr = 'error' in mo
+        obs['model_rejects'] = merr
+        if merr != bool(bad):
+            vs.append(Violation(what=f'Lean classifier and ANTLR (+ EOF test) disagree on whether a text is grammatical (model {"rejects" if merr else "accepts"}, '
+                                     f'ANTLR {"rejects: " + str(why) if bad else "accepts"}; {family})',
+                                fingerprint='C17:model-divergence', replay=rep, no_failing_input=True))
+        elif merr != (raised is not None) and not vs:
+            vs.append(Violation(what=f'Lean classifier {"rejects" if merr else "accepts"} a text on which MalCompiler.compile {"raises " + str(raised) if raised else "returns a specification"} ({family})',
+                                fingerprint='C17:model-divergence-compiler', replay=rep, no_failing_input=True))
+        elif not bad and raised is None and malsrc.canon_spec(mo.get('spec', {})) != malsrc.canon_spec(out):
+            vs.append(Violation(what=f'Lean model and implementation compile a valid text differently ({family})', fingerprint='C17:model-divergence-spec',
+                                replay=rep, no_failing_input=True))
+    return vs, obs, out
+
+def run(seed, tier, lean) -> Result:
+    res = Result(rule='valid programs (random specifications printed as MAL, single file or with includes) (1) mutated at token level: deletion, insertion, '
+                      'duplication, truncation, swapped brackets, reserved words as names, stray characters / unterminated strings, in the root or in an '
+                      'included file; (2) followed by input the start rule does not consume: a surplus }, a misspelt top-level keyword + block, arbitrary '
+                      'legal tokens, a lexical error behind a token where the parser stops — in the root or in an included file; (3) unmutated controls. '
+                      'Agreement: Lean classifier rejects <=> MalCompiler.compile raises <=> ANTLR with counting listeners reports an error or leaves '
+                      'tokens unconsumed; every case of family (2) must be rejected by all three; non-trivial = the text lexes cleanly and is rejected')
+    cases = gen_cases(seed, tier)
+    model = run_driver([{'op': 'compile', 'case': i, 'files': [[k, v] for k, v in f.items()], 'root': root} for i, (f, root, _, _) in enumerate(cases)]) if lean['build_ok'] else None
+    for i, (files, root, victim, family) in enumerate(cases):
         res.evaluations += 1
-        bad, raised, out = verdicts(files, root, str(i % 8))
+        mo = model[i].get('model', {}) if model is not None else None
+        vs, obs, out = judge(files, root, victim, family, mo, str(i % 8))
+        bad = obs['bad']
         if bad is None: res.bump('missing include'); continue
-        res.bump('grammar: erroneous' if bad else 'grammar: still valid')
+        res.bump(family.split(':included')[0] + (': rejected' if bad else ': still valid'))
+        if family.endswith(':included'): res.bump('trailing input in an included file')
         if bad:
+            res.bump('grammar verdict: ' + obs['why'])
             d = os.path.join(scratch(), 'c17-lex'); os.makedirs(d, exist_ok=True)
             p = os.path.join(d, 'v.mal'); open(p, 'w', encoding='utf-8').write(files[victim])
             if malsrc.real_tokens(p)[1] == 0: res.nontrivial.add(canon_hash(files))
-        if bad and raised is None:
-            res.violations.append(Violation(what=f'source that the grammar rejects (mutated {victim}) compiles to a specification instead of raising',
-                                            fingerprint='C17:half-compiled', replay={'files': files, 'root': root, 'result': json.dumps(out)[:1500]}))
-            continue
-        if model is not None:
-            mo = model[i].get('model', {})
-            merr = 'error' in mo
-            if merr != bool(bad):
-                res.violations.append(Violation(what=f'Lean parser and ANTLR disagree on whether a mutant is grammatical (model {"rejects" if merr else "accepts"}, ANTLR {"rejects" if bad else "accepts"})',
-                                                fingerprint='C17:model-divergence', replay={'files': files, 'root': root}, no_failing_input=True))
-            elif not bad and raised is None and malsrc.canon_spec(mo.get('spec', {})) != malsrc.canon_spec(out):
-                res.violations.append(Violation(what='Lean model and implementation compile a still-valid mutant differently', fingerprint='C17:model-divergence-spec',
-                                                replay={'files': files, 'root': root}, no_failing_input=True))
-        if len(res.samples) < 3 and bad: res.samples.append({'mutant_of': victim, 'text': files[victim][:300], 'raised': raised})
+        res.violations += vs
+        if len(res.samples) < 4 and bad and (family != 'mutant' or len(res.samples) < 2):
+            res.samples.append({'family': family, 'mutant_of': victim, 'text': files[victim][-300:], 'raised': obs['raised']})
     return res
 
 def replay(path):
     r = json.load(open(path))
-    bad, raised, out = verdicts(r['files'], r['root'], 'replay')
-    print('grammar rejects:', bad, 'compiler raised:', raised)
-    v = bool(bad) and raised is None
+    fam = r.get('family', 'mutant')
+    bad, raised, out, why = verdicts(r['files'], r['root'], 'replay')
+    print('family:', fam, '| grammar rejects:', bad, f'({why})', '| compiler raised:', raised)
+    v = (bool(bad) or fam.startswith('trailing')) and raised is None
+    if not v and r.get('no_failing_input_found'):
+        # a divergence between the parties (no failing input of the property itself): re-judge with the model
+        mo = run_driver([{'op': 'compile', 'case': 0, 'files': [[k, x] for k, x in r['files'].items()], 'root': r['root']}])[0].get('model', {})
+        vs, obs, _ = judge(r['files'], r['root'], sorted(r['files'])[0], fam, mo, 'replay')
+        print('model rejects:', obs.get('model_rejects'))
+        v = bool(vs)
     print('VIOLATION reproduced' if v else 'not reproduced'); return 1 if v else 0
